@@ -9,4 +9,4 @@ From OSQ Require Import Num IR Construct DefaultTable Matrix Check ABA Merge McK
 Lemma cnot_decompose_ok : forall (T : Type) (N : Num T) (c tq : Z) (ax : axis3 T) (angle phase : T) (gi : ginfo T),
   Z.eqb c tq = false ->
   gen_cnot_decompose N c tq ax angle phase = cnot_decompose N (Ctrl c (BSR tq ax angle phase)) gi.
-Proof. intros T N c tq ax angle phase gi H. tie_norm_gates. rewrite ?H. cbv beta iota zeta. eval_closed. tie_cases. Qed.
+Proof. intros T N c tq ax angle phase gi H. tie_norm_gates. destruct (Z.eqb c tq); [discriminate H|]. cbv beta iota zeta. eval_closed. tie_cases. Qed.
